@@ -4,7 +4,7 @@ from __future__ import annotations
 import ast
 from typing import List, Optional, Set
 
-from ..core.program import AnalysisError, FuncInfo, own_nodes, norm
+from ..core.program import pos, AnalysisError, FuncInfo, own_nodes, norm
 from ..core.world import world
 from .dispatch import find_chain, lift_chain
 
@@ -510,7 +510,7 @@ def rule_id_order(ctx):
               msg=f"ids are assigned in the order of the sort key {seq}; documented order is onset, pitch, offset, channel, track")
     # the id assignment follows the sort
     idloop = [n for n in own_nodes(f.node) if isinstance(n, ast.For) and f"enumerate({lst})" in norm(n.iter)]
-    ctx.check(bool(idloop) and idloop[0].lineno > sorts[0].lineno, "ID-ORDER", f"{f.qname}: ids after sort", func=f,
+    ctx.check(bool(idloop) and pos(idloop[0]) > pos(sorts[0]), "ID-ORDER", f"{f.qname}: ids after sort", func=f,
               construct="id-after-sort", msg="ids must be assigned after sorting")
 
 
